@@ -38,7 +38,15 @@ class HasSharding(tp.Protocol):
 def _has_sharding(x: tp.Any) -> tp.TypeGuard[HasSharding]:
   return hasattr(x, 'sharding') and x.sharding is not None
 
-def add_axis(tree: A, index: int, transform_metadata: tp.Mapping) -> A:
+def _normalize_axis(index: int, x: variablelib.VariableState) -> int:
+  # inside the transform the value does not have the mapped axis: a negative
+  # index counts from the end of the array that has it.
+  if index < 0:
+    index += getattr(x.value, 'ndim', -index - 1) + 1
+  return index
+
+
+def add_axis(tree: A, axis_index: int, transform_metadata: tp.Mapping) -> A:
   axis_name, other_meta = _get_partition_name_and_metadata(transform_metadata)
 
   def insert_field(fields, index, value):
@@ -50,6 +58,7 @@ def add_axis(tree: A, index: int, transform_metadata: tp.Mapping) -> A:
 
   def _add_axis(x: tp.Any):
     if isinstance(x, variablelib.VariableState):
+      index = _normalize_axis(axis_index, x)
       if _has_sharding(x) and x.sharding is not None:
         x.sharding = insert_field(x.sharding, index, axis_name)
 
@@ -66,7 +75,7 @@ def add_axis(tree: A, index: int, transform_metadata: tp.Mapping) -> A:
   )
 
 
-def remove_axis(tree: A, index: int, transform_metadata: tp.Mapping[tp.Any, tp.Any]) -> A:
+def remove_axis(tree: A, axis_index: int, transform_metadata: tp.Mapping[tp.Any, tp.Any]) -> A:
   axis_name, other_meta = _get_partition_name_and_metadata(transform_metadata)
 
   def remove_field(fields, index, value):
@@ -76,6 +85,7 @@ def remove_axis(tree: A, index: int, transform_metadata: tp.Mapping[tp.Any, tp.A
 
   def _remove_axis(x: tp.Any):
     if isinstance(x, variablelib.VariableState):
+      index = _normalize_axis(axis_index, x)
       if hasattr(x, 'sharding') and x.sharding is not None:
         x.sharding = remove_field(x.sharding, index, axis_name)
 
